@@ -802,6 +802,85 @@ type c16Target struct {
 	F float64
 }
 
+type c16Emb struct {
+	Maxconn int
+	Ab      int
+}
+
+// c16Zoo: further targets every case is unmarshalled into (unnamed struct types, so that any block type fits):
+// a Name field that cannot take the name, none at all, an unexported one; two fields one key may designate
+// (side by side, and one of them promoted from an embedded struct); names whose case-fold partner has another width.
+var c16Zoo = []func() any{
+	func() any {
+		return &struct {
+			Name int
+			AB   int
+			S    string
+			F    float64
+		}{}
+	},
+	func() any {
+		return &struct {
+			name string
+			AB   int
+			S    string
+			F    float64
+		}{}
+	},
+	func() any {
+		return &struct {
+			AB      int
+			S       string
+			F       float64
+			MaxConn int
+		}{}
+	},
+	func() any {
+		return &struct {
+			Name    string
+			MaxConn int
+			Maxconn int
+			AB      int
+			Ab      int
+			S       string
+		}{}
+	},
+	func() any {
+		return &struct {
+			Name string
+			c16Emb
+			MaxConn int
+			S       string
+		}{}
+	},
+	func() any {
+		return &struct {
+			Name string
+			c16Emb
+			AB int `bcl:"max_conn"`
+		}{}
+	},
+	func() any {
+		return &[]struct {
+			Name    any
+			MaxConn int
+			Maxconn int
+			AB      int
+			S       string
+			F       float64
+		}{}
+	},
+	func() any {
+		return &struct {
+			Name     string
+			K        int
+			Miſt     string
+			MAXCONN  int
+			Max_Conn int
+		}{}
+	},
+}
+
 // c16Case builds a case selected for order sensitivity and returns a digest
 // of everything observable from one run.
 func c16Source(r *rand.Rand) (src []byte, kind string) {
@@ -823,6 +902,29 @@ func c16Source(r *rand.Rand) (src []byte, kind string) {
 		}
 		b.WriteString("}\nbind c16_target -> struct")
 		return []byte(b.String()), "case_variant_keys"
+	}
+	if r.Intn(12) == 0 {
+		// one key that fits two struct fields of some targets, without and with a block name (some targets
+		// have no usable Name field): error or not, the outcome is the same every time
+		var b strings.Builder
+		b.WriteString("def c16_target ")
+		if r.Intn(2) == 0 {
+			fmt.Fprintf(&b, "\"n%d\" ", r.Intn(3))
+		}
+		b.WriteString("{ ")
+		keys := []string{"max_conn", "maxconn", "MAX_CONN", "Max_Conn", "MaxConn", "Maxconn", "ab", "a_b", "Ab", "s", "f", "k", "mist", "K", "name"}
+		for _, k := range r.Perm(len(keys))[:1+r.Intn(3)] {
+			switch keys[k] {
+			case "s", "mist":
+				fmt.Fprintf(&b, "%s = \"v%d\"; ", keys[k], k)
+			case "f":
+				fmt.Fprintf(&b, "f = %d.25; ", k)
+			default:
+				fmt.Fprintf(&b, "%s = %d; ", keys[k], k)
+			}
+		}
+		b.WriteString("}\nbind c16_target -> struct")
+		return []byte(b.String()), "key_fitting_two_fields_or_unusable_name_field"
 	}
 	if r.Intn(14) == 0 {
 		// an operator applied to a child block with several fields: the error text must not vary
@@ -1043,6 +1145,13 @@ func c16Digest(src []byte) string {
 	var ts []c16Target
 	pan, _ = protect(func() { uerr = bcl.Unmarshal(src, &ts, bcl.OptLogger(&lg), bcl.OptOutput(&out)) })
 	fmt.Fprintf(&b, "unmarshal-slice=%+v|%v|%s|", ts, uerr, pan)
+	if r.Binding != nil && r.Panic == "" {
+		for k, mk := range c16Zoo {
+			zt := mk()
+			pan, _ = protect(func() { uerr = bcl.Bind(zt, r.Binding) })
+			fmt.Fprintf(&b, "zoo%d=%+v|%v|%s|", k, reflect.ValueOf(zt).Elem().Interface(), uerr, pan)
+		}
+	}
 	// two independent calls with same-named types, in either order
 	cfgSrc := []byte("def cfg \"n\" { x = 1; y = 2 }\nbind cfg -> struct")
 	res := map[int]string{}
